@@ -231,6 +231,9 @@ func (h *History) policyBefore(i int) *Policy {
 	return nil
 }
 
+// PolicyInForceAt returns the policy state in force for entry i.
+func (h *History) PolicyInForceAt(i int) *Policy { return h.policyBefore(i) }
+
 func (h *History) attBefore(i int) *AttState {
 	for j := i - 1; j >= 0; j-- {
 		if h.Entries[j].Kind == AttestEntry {
@@ -334,14 +337,11 @@ func Credit(p *Policy, r Rule, a *AttState, ref, from, to, entrySigner string, i
 			if n < app.Threshold || app.Threshold < 1 {
 				continue
 			}
-			dismissed := map[string]bool{}
-			for _, d := range ap.Dismissed {
-				dismissed[d] = true
-			}
+			// Only the approvers list counts. The dismissed list records
+			// dismissals; gittuf's writer removes a dismissed approver from
+			// the approvers list, and a later re-approval puts them back, so
+			// membership in the approvers list is what "not dismissed" means.
 			for _, who := range ap.Approvers {
-				if dismissed[who] {
-					continue
-				}
 				for _, pid := range r.Principals {
 					if p.Identities[pid][app.Name] == who {
 						credited[pid] = true
